@@ -678,7 +678,7 @@ func redactString(s string, nonEncryptedValue string) string {
 	if shouldEncrypt && encryptionKey != nil {
 		encrypted, err := Encrypt([]byte(s), encryptionKey)
 		if err != nil {
-			return s // Fallback to original if encryption fails
+			return nonEncryptedValue // never emit the plaintext: fall back to the placeholder
 		}
 		return base64.StdEncoding.EncodeToString(encrypted)
 	}
